@@ -15,6 +15,7 @@ import (
 	"math/big"
 
 	"github.com/oasisprotocol/curve25519-voi/primitives/ed25519"
+	"github.com/oasisprotocol/curve25519-voi/zzverif/disturb"
 	"github.com/oasisprotocol/curve25519-voi/zzverif/mon"
 	"github.com/oasisprotocol/curve25519-voi/zzverif/ref"
 )
@@ -175,6 +176,10 @@ func runCase(r *mon.Run, c Case) {
 		dom = ref.Dom2(1, []byte(ctx))
 	}
 	var sig []byte
+	// one case in two signs right after an operation that failed on the same goroutine (package disturb)
+	if c.Idx%2 == 0 {
+		r.Hist("disturbed-before-sign/" + disturb.Ed25519(c.Idx/2))
+	}
 	pan, pm := mon.Try(func() { sig, err = priv.Sign(nil, m, opts) })
 	ssig, serr := spriv.Sign(nil, m, sopts)
 	rsig := rk.Sign(m, dom)
